@@ -48,3 +48,30 @@ def pip_first_tree_splits(i, p):
                 if a1[j] > 0 and a2[j] > 0 and _indefinite(b2 * a1[j] - b1 * a2[j], [c2 * a1[j] - c1 * a2[j] for c1, c2 in zip(p1, p2)]):
                     return True
     return False
+
+
+def suc_context_line_meets_in_point(i, p):
+    """C02 op 16, n = 2: the context is a line (one equality) and the receiver's half-planes cut it down to a single
+    point (the meet has a lower dimension than the context)."""
+    from fractions import Fraction as F
+    if (p['n'] or 2) != 2 or i['sel_q0kind'] != 1:
+        return False
+    a0, a1, b = i['q0a0'], i['q0a1'], i['q0b']
+    if a0 == 0 and a1 == 0:
+        return False
+    # base point and direction of the line a.x + b = 0
+    if a0 != 0: base = (F(-b, a0), F(0))
+    else: base = (F(0), F(-b, a1))
+    d = (F(-a1), F(a0))
+    lo, hi = None, None
+    for r in range(p['m'] or 1):
+        c0, c1, cb, kind = i['p%da0' % r], i['p%da1' % r], i['p%db' % r], i['sel_p%dkind' % r]
+        s = c0 * d[0] + c1 * d[1]; k = c0 * base[0] + c1 * base[1] + cb      # s t + k (>=, ==) 0
+        if s == 0:
+            if (kind == 1 and k != 0) or (kind != 1 and k < 0): return False    # empty meet
+            continue
+        t = -k / s
+        if kind == 1: lo = t if lo is None or t > lo else lo; hi = t if hi is None or t < hi else hi
+        elif s > 0: lo = t if lo is None or t > lo else lo
+        else: hi = t if hi is None or t < hi else hi
+    return lo is not None and hi is not None and lo == hi
